@@ -814,7 +814,10 @@ namespace BitSerializer::Convert::Utf
 				// Detecting UTF-32 (LE/BE)
 				if (i % sizeof(Utf32Le::char_type) == 0 && i + sizeof(Utf32Le::char_type) < inputString.size())
 				{
-					if (const uint32_t sym = Memory::NativeToLittleEndian(*reinterpret_cast<const uint32_t*>(&inputString[i])); sym != 0)
+					// Use `memcpy` because data can be misaligned
+					uint32_t sym;
+					std::memcpy(&sym, &inputString[i], sizeof(sym));
+					if (sym = Memory::NativeToLittleEndian(sym); sym != 0)
 					{
 						if ((sym & 0b11111111111111110000000000000000) == 0)
 						{
@@ -831,7 +834,10 @@ namespace BitSerializer::Convert::Utf
 				// Detecting UTF-16 (LE/BE)
 				if (i % sizeof(Utf16Le::char_type) == 0 && i + sizeof(Utf16Le::char_type) < inputString.size())
 				{
-					if (const uint16_t sym = Memory::NativeToLittleEndian(*reinterpret_cast<const uint16_t*>(&inputString[i])); sym != 0)
+					// Use `memcpy` because data can be misaligned
+					uint16_t sym;
+					std::memcpy(&sym, &inputString[i], sizeof(sym));
+					if (sym = Memory::NativeToLittleEndian(sym); sym != 0)
 					{
 						if ((sym & 0b1111111100000000) == 0)
 						{
